@@ -500,6 +500,9 @@ pub fn run_c17(tier: &str, seed: u64) -> campaign::CampaignResult {
                 let o = run_case(p, &rules, &b.exe, &c);
                 if o.infra.is_some() {
                     pp.infra += 1;
+                    if pp.infra >= 4 {
+                        break;
+                    }
                     continue;
                 }
                 let fp = util::hash64(&[sources[pi].as_bytes(), o.script.as_bytes()]);
